@@ -59,3 +59,14 @@ check('C19',
       'price pass-through are evaluated on the implementation on every case.',
       TB + 'pd.date_range / tz database are the calendar oracle (evaluated independently in harness/modelspec.py).',
       'Coq proof + differential correspondence + hypothesis checks on the implementation', 'DESIGN.md 5 C19')
+check('C08',
+      'Theorems (any grid, any asset list): the restricted grid is exactly the set of horizon steps in [start,end); a window missing the '
+      'horizon selects nothing; an empty asset problem anywhere in the asset list leaves the whole portfolio problem unchanged; a take '
+      'period without step emits no row, otherwise its right-hand side is value x covered / period duration; an order without step '
+      'appended to any order book adds one [0,1] variable with zero cost and no mapping row, and such a variable changes neither the '
+      'optimum nor the optimal points of the rest. The model builders are compared with the implementation on windowed assets (inside, '
+      'straddling, off-grid, before, after), takes and orders; on the implementation every generated portfolio is rebuilt with an '
+      'outside asset / order / order book / take period and the two problems are compared structurally (costs, bounds, rows, mapping, '
+      'value), dispatch outside each asset window is checked at box points and optima, and take rows are recomputed independently.',
+      TB + 'Assets with a coarser frequency are excluded from the window oracle (their windows are the subject of the C19 known finding).',
+      'Coq proof + differential correspondence + metamorphic implementation oracle (with/without outside element)', 'DESIGN.md 5 C08')
